@@ -326,6 +326,20 @@ class Check(PropertyCheck):
                 for _ in range(10):
                     lab += [("nsub",), ("n2h", "deliver"), ("h2n", "deliver")]
                 cases.append({"seed": 1, "window": w, "n": 0, "fault": 0.0, "cancels": False, "directed": lab})
+        # directed: the line duplicates a frame of the NCP the host has already accepted while later frames of the NCP's window
+        # are lost: the host rejects the duplicate; the number its NAK carries is the host's own expected number, whatever
+        # the two ends' counters are relative to each other (every offset between them, windows 1..3)
+        for w in (1, 2, 3):
+            for off in range(8):
+                for base in ((0,) if tier == "quick" else (0, 3, 6)):
+                    lab = []
+                    for _ in range(base):
+                        lab += [("nsub",), ("n2h", "deliver"), ("h2n", "deliver")]
+                    for _ in range(base + off):
+                        lab += [("hsub",), ("h2n", "deliver"), ("n2h", "deliver")]
+                    lab += [("nsub",)] * (w + 1) + [("n2h", "dup"), ("n2h", "deliver"), ("h2n", "deliver")]
+                    lab += [("n2h", "drop")] * w + [("h2n", "deliver")]
+                    cases.append({"seed": 1, "window": w, "n": 0, "fault": 0.0, "cancels": False, "directed": lab})
         return cases
 
     def run_impl(self, case):
